@@ -273,6 +273,17 @@ def r4(ctx):
                  f"the ring write charges {shape_str(sa)} against the capacity, the file API charges {shape_str(sb)}: the same write succeeds through one API and fails with ENOSPC through the other")
     elif ctx.strict:
         ctx.bad(R, "exec_write~write_at_internal:space-charged", "", "check_space call not found in one of the siblings")
+    # a read corrupted on purpose is reported: both siblings fire the corruption event behind the corruption draw (observers - barriers on
+    # FsCorruption - see ring-driven reads like shim reads)
+    FC = re.compile(r"^turmoil_fs::fire_corruption$")
+    for a, bname in (("turmoil_io_uring::sim::exec_read", "turmoil_fs::shim::std::fs::File::read_at_internal"),):
+        if a in ctx.w.bodies and bname in ctx.w.bodies:
+            fa = [t for fb in ctx.w.family(a) for bb, t in fb.calls(FC)]
+            fb_ = [t for fb in ctx.w.family(bname) for bb, t in fb.calls(FC)]
+            ok = bool(fa) == bool(fb_)
+            ctx.inst(R, "exec_read~read_at_internal:corruption-event", ok, ctx.w.bodies[a].span, "both report an injected corruption" if ok else
+                     "the file API reports an injected corruption (fire_corruption -> FsCorruption barriers) but the ring executor flips the byte silently: "
+                     "the same read has a different observable effect through the two APIs, and a barrier on FsCorruption misses ring-driven reads")
     # O_DIRECT: buffer address, file offset and length are each tested against the alignment, by the ring as by the file API
     # (a test of a sum - `offset + len` - accepts a misaligned offset that the synchronous API refuses with EINVAL)
     for fid in ("turmoil_io_uring::sim::direct_io_aligned", "turmoil_fs::shim::std::fs::File::read_at_internal", "turmoil_fs::shim::std::fs::File::write_at_internal"):
@@ -310,7 +321,7 @@ def r4(ctx):
             ok = not before
             ctx.inst(R, f"page-cache-probe:{root.id}#{n}", ok, b.term(a)["s"], "cold / warm is decided before the page is inserted" if ok else
                      f"`{root.id}` inserts the page before probing the cache: a cold read always counts as a hit and completes without the disk latency")
-    ctx.floor(R, 13)
+    ctx.floor(R, 14)
 
 
 def r5(ctx):
@@ -342,14 +353,32 @@ def r6(ctx):
         for bb, t in sp.calls(RS + "schedule"):
             o = origin(sp, t["args"][2])
             ok = False
-            if o["k"] == "call" and re.search(r"Duration as std::ops::Add>::add$", o["t"]["f"]):
+            sat = None
+            if o["k"] == "call" and re.search(r"Duration as std::ops::Add>::add$|Duration::(saturating_add|checked_add)$", o["t"]["f"]):
                 a0 = Slicer(ctx.w).atoms(sp, o["t"]["args"][0])
                 a1 = Slicer(ctx.w).atoms(sp, o["t"]["args"][1])
                 ok = any(a.startswith("arg:4:") for a in a0) and "call:turmoil_fs::Fs::calculate_latency" in a1
+                sat = not o["t"]["f"].endswith("::add")
             ctx.inst(R, f"schedule_pending:when#{n}", ok, t["s"], "completion time = now + sampled latency" if ok else "completion time is not now + Fs::calculate_latency(..)")
+            if sat is not None:
+                # the latency is configuration (any Duration): with the panicking `+` a latency near Duration::MAX ("never completes")
+                # aborts the submit instead of leaving the entry in flight - it never gets its completion
+                ctx.inst(R, f"schedule_pending:when-saturates#{n}", sat, t["s"], "completion time = now saturating_add latency" if sat else
+                         "schedule_pending adds the configured latency to the clock with the panicking `+`: a latency the clock cannot represent panics inside "
+                         "submit() (poisoning the ring state) instead of leaving the entry in flight - no completion is ever delivered for it")
             n += 1
         if n < 3 and ctx.strict:
             ctx.bad(R, "schedule_pending:when", sp.span, f"expected 3 schedule sites (read, write, fsync), found {n}")
+    # the waiter side: AsyncFd::readable turns the earliest deadline into a tokio Instant
+    rd = [b for b in ctx.w.find(r"^turmoil_io_uring::async_fd::AsyncFd::readable") ]
+    for fb in rd:
+        for bb, t in fb.calls(re.compile(r"Instant as std::ops::Add>::add$|Instant as std::ops::Add<.*>>::add$")):
+            if str(t.get("x", "")).startswith("m:"):
+                continue
+            ctx.inst(R, "readable:deadline-representable", False, t["s"], "AsyncFd::readable adds the time to the earliest deadline to Instant::now() with the panicking `+`: "
+                     "a deadline the clock cannot represent panics the waiter instead of letting it wait for a notification")
+    if rd and not any(True for fb in rd for bb, t in fb.calls(re.compile(r"Instant as std::ops::Add")) if not str(t.get("x", "")).startswith("m:")):
+        ctx.ok(R, "readable:deadline-representable", rd[0].span, "the waiter's deadline is computed with a checked addition")
     ctx.floor(R, 3)
 
 
@@ -408,7 +437,54 @@ def r9(ctx):
     ctx.floor(R, 2)
 
 
+def r10(ctx):
+    R = "C18-R10"
+    ctx.rule(R, "every entry completes whatever offset it names: an SQE's offset and length are the guest's (any u64 / u32). A panicking `offset + len` "
+                "in an executor (exec_read / exec_write run inside CompletionQueue::next under the ring lock) would abort the drain and leave the entry "
+                "without a completion - so either the executors do that arithmetic without a panicking operator, or schedule_pending turns "
+                "unrepresentable ranges into an immediate error before scheduling (a checked_add of the entry's offset and len whose failing edge "
+                "reaches post_immediate_error and no schedule)")
+    risky = []
+    for fid in ("turmoil_io_uring::sim::exec_read", "turmoil_io_uring::sim::exec_write"):
+        for fb in (ctx.w.family(fid) if fid in ctx.w.bodies else []):
+            for bb, i, s2 in fb.all_stmts():
+                r = s2["r"]
+                if i == "term" or r["k"] != "bin" or r["op"] not in ("AddWithOverflow", "MulWithOverflow"):
+                    continue
+                at = Slicer(ctx.w).atoms(fb, r["a"]) | Slicer(ctx.w).atoms(fb, r["b"])
+                if any(re.match(r"arg:\d+:offset@", a) for a in at):
+                    risky.append((fid, s2["s"]))
+    sp = ctx.body(R, "turmoil_io_uring::submit::schedule_pending")
+    guard = False
+    if sp:
+        OFF = re.compile(r"^field:turmoil_io_uring::squeue::OpKind::.*offset$|OpKind.*::offset$")
+        sched = [bb for bb, t in sp.calls(RS + "schedule")]
+        pie = [bb for bb, t in sp.calls(RS + "post_immediate_error")]
+        for sbb, te, fe, o in guards_on(sp, lambda o: o["k"] == "call" and re.search(r"Option::(is_none|is_some)$", o["t"]["f"])):
+            src = origin(sp, o["t"]["args"][0])
+            src = origin(sp, {"c": src["p"]}) if src["k"] == "ref" and not src["p"].get("p") else src
+            if src["k"] != "call" or not src["t"]["f"].endswith("::checked_add"):
+                continue
+            at = Slicer(ctx.w).atoms(sp, src["t"]["args"][0]) | Slicer(ctx.w).atoms(sp, src["t"]["args"][1])
+            if not any("offset" in a for a in at if a.startswith("field:")) or not any(a.endswith("::len") or "::len" in a for a in at if a.startswith("field:")):
+                continue
+            fail = te if o["t"]["f"].endswith("is_none") else fe
+            for e in fail:
+                r_ = sp.reachable(e[1], stop=[sbb])
+                nxt = [x for x, t2 in sp.calls(re.compile(r"Iterator>::next$")) ]
+                r_ = sp.reachable(e[1], stop=nxt)
+                if any(x in r_ for x in pie) and not any(x in r_ for x in sched):
+                    guard = True
+    ok = not risky or guard
+    ctx.inst(R, "offset-range:representable", ok, risky[0][1] if risky else (sp.span if sp else ""),
+             ("no panicking arithmetic on the guest's offset in the executors" if not risky else "unrepresentable offset ranges are completed with an immediate error at submit") if ok else
+             f"`{risky[0][0]}` computes `offset + len` with the panicking `+` on values the guest chose, and schedule_pending schedules every Read / Write unseen: "
+             "an entry with offset near u64::MAX (incl. -1, `use the file position`) panics inside CompletionQueue::next, poisons the ring lock and never completes")
+    ctx.floor(R, 1)
+
+
 def run(ctx):
+    r10(ctx)
     r9(ctx)
     scan_rule(ctx, "C18")
     r7(ctx)
